@@ -41,6 +41,8 @@ type gen struct {
 	confirm     map[[2]int]bool
 	wedged      bool
 	dist        map[string]int
+	raw         map[int]string // connections still in the handshake: id -> stage (s, t, k), "x" = the broker should have dropped it
+	rawOrder    []int
 }
 
 // focus biases the op mix towards one mechanism (empty: the general mix)
@@ -309,6 +311,156 @@ func countConsumers(ch *server.VerifChannelSnap) int {
 
 // ------------------------------------------------------------------------
 
+// stepHandshake drives a connection through the handshake one frame at a time: mostly the right next step,
+// otherwise one of the wrong ones the property lists (wrong credentials, order, limits, vhost, any other frame)
+func (g *gen) stepHandshake() bool {
+	if g.raw == nil {
+		g.raw = map[int]string{}
+	}
+	live := []int{}
+	for _, c := range g.rawOrder {
+		if g.raw[c] != "" {
+			live = append(live, c)
+		}
+	}
+	if len(live) == 0 || (len(live) < 2 && g.r.Chance(1, 5)) {
+		g.nconn++
+		c := g.nconn
+		g.do(fmt.Sprintf("ACCEPT %d", c))
+		g.raw[c] = "s"
+		g.rawOrder = append(g.rawOrder, c)
+		return true
+	}
+	c := live[g.r.Intn(len(live))]
+	st := g.raw[c]
+	startok := func(mech, user, pass string, raw bool) string {
+		good := mech == "PLAIN" && !raw
+		if good {
+			good = false
+			for _, u := range sessionUsers {
+				if u[0] == user && u[1] == pass {
+					good = true
+				}
+			}
+		}
+		enc := func(x string) string {
+			if x == "" {
+				return "-"
+			}
+			return x
+		}
+		rs := "0"
+		if raw {
+			rs = "1"
+		}
+		return fmt.Sprintf("STARTOK %d %s %s %s %s %s", c, g.bs(good), enc(mech), enc(user), enc(pass), rs)
+	}
+	tuneok := func(cm, fm int) string {
+		return fmt.Sprintf("TUNEOK %d %s %d %d", c, g.bs(cm <= 4096 && fm <= 65536), cm, fm)
+	}
+	copen := func(vh string) string {
+		v := vh
+		if v == "" {
+			v = "-"
+		}
+		return fmt.Sprintf("COPEN %d %s %s", c, g.bs(vh == "/"), v)
+	}
+	if st == "x" {
+		// the broker must have dropped this connection: whatever is sent now must stay without effect
+		var op string
+		switch g.r.Intn(5) {
+		case 0:
+			op = startok("PLAIN", "guest", "guest", false)
+		case 1:
+			op = tuneok(2047, 65536)
+		case 2:
+			op = copen("/")
+		case 3:
+			op = fmt.Sprintf("CH %d 1", c)
+		default:
+			op = fmt.Sprintf("QD %d 1 %s 0 0 0 0 0", c, g.pick(qnames))
+		}
+		g.do(op)
+		g.raw[c] = ""
+		return true
+	}
+	if g.r.Chance(3, 5) {
+		// the right next step
+		switch st {
+		case "s":
+			u := sessionUsers[g.r.Intn(len(sessionUsers))]
+			g.do(startok("PLAIN", u[0], u[1], false))
+			g.raw[c] = "t"
+		case "t":
+			g.do(tuneok([]int{0, 1, 2047, 4096}[g.r.Intn(4)], []int{0, 4096, 65536}[g.r.Intn(3)]))
+			g.raw[c] = "k"
+		case "k":
+			r := g.do(copen("/"))
+			g.raw[c] = ""
+			if r.Note == "" {
+				g.conns = append(g.conns, c)
+				g.openChan(c)
+			}
+		}
+		return true
+	}
+	// a wrong step: afterwards the connection must be gone
+	var op string
+	switch g.r.Intn(12) {
+	case 0:
+		op = startok("PLAIN", "guest", "wrong", false)
+	case 1:
+		op = startok("PLAIN", "nobody", "", false)
+	case 2:
+		op = startok("PLAIN", "nobody", "guest", false)
+	case 3:
+		op = startok("AMQPLAIN", "guest", "guest", false)
+	case 4:
+		op = startok("PLAIN", "guest", "guest", true)
+	case 5:
+		op = tuneok([]int{4097, 65535, 2047}[g.r.Intn(3)], []int{65537, 1 << 20, 65536}[g.r.Intn(3)])
+	case 6:
+		op = copen([]string{"", "nope", "/x", "//"}[g.r.Intn(4)])
+	case 7:
+		op = fmt.Sprintf("CH %d %d", c, g.r.Intn(2))
+	case 8:
+		op = fmt.Sprintf("QD %d %d %s 0 0 0 0 0", c, g.r.Intn(2), g.pick(qnames))
+	case 9:
+		g.uid++
+		op = fmt.Sprintf("PUB %d %d - %s 0 0 0 %d 3", c, g.r.Intn(2), g.pick(qnames), g.uid)
+	case 10:
+		op = fmt.Sprintf("GET %d %d %s 1", c, g.r.Intn(2), g.pick(qnames))
+	default:
+		op = fmt.Sprintf("QP %d %d %s 0", c, g.r.Intn(2), g.pick(qnames))
+	}
+	// a handshake frame that happens to be the right one for this stage is not a wrong step
+	f := strings.Fields(op)
+	right := (st == "s" && f[0] == "STARTOK" && f[2] == "1") || (st == "t" && f[0] == "TUNEOK" && f[2] == "1") || (st == "k" && f[0] == "COPEN" && f[2] == "1")
+	g.do(op)
+	switch {
+	case right && st == "s":
+		g.raw[c] = "t"
+	case right && st == "t":
+		g.raw[c] = "k"
+	case right && st == "k":
+		g.raw[c] = ""
+		g.conns = append(g.conns, c)
+		g.openChan(c)
+	case g.r.Chance(1, 2):
+		g.raw[c] = "x"
+	default:
+		g.raw[c] = ""
+	}
+	return true
+}
+
+func (g *gen) bs(b bool) string {
+	if b {
+		return "1"
+	}
+	return "0"
+}
+
 func (g *gen) stepRandom() {
 	sn := g.snap()
 	// answer broker-initiated closes first (most of the time)
@@ -336,6 +488,9 @@ func (g *gen) stepRandom() {
 			}
 			return
 		}
+	}
+	if focus == "handshake" && g.r.Chance(3, 5) && g.stepHandshake() {
+		return
 	}
 	if len(g.conns) == 0 || (len(g.conns) < 3 && g.r.Chance(1, 25)) {
 		g.openConn()
@@ -652,6 +807,9 @@ func genSession(seed uint64, idx int, steps int, kind string, work string, settl
 	if engine == "badger" || (engine == "" && r.Chance(1, 6)) {
 		cfg.Engine = "badger"
 		cfg.Dir = filepath.Join(work, fmt.Sprintf("badger-%d-%d-%d", os.Getpid(), seed, idx))
+	}
+	if focus == "handshake" {
+		cfg.Auth = []string{"md5", "bcrypt", "plain"}[r.Intn(3)]
 	}
 	enc := json.NewEncoder(os.Stdout)
 	id := fmt.Sprintf("%s-%d-%d", kind, seed, idx)
